@@ -1,4 +1,4 @@
-CONSTANTS FULLGRID = FALSE  SIZES = {1, 2, 3, 4, 5, 6, 7, 8, 9, 16, 17}  EMIT = TRUE
+CONSTANTS FULLGRID = FALSE  SIZES = {1, 2, 3, 4, 5, 6, 7, 8, 9, 16, 17}  BIG = {252, 253}  EMIT = TRUE
 SPECIFICATION Spec
 INVARIANTS HeaderImage BlockImage BlockHeadReadBack
 CHECK_DEADLOCK FALSE
